@@ -12,6 +12,7 @@ import (
 	"strings"
 	"testing"
 
+	"github.com/gogpu/naga/ir"
 	"pgregory.net/rapid"
 
 	"verif/internal/ev"
@@ -164,9 +165,9 @@ func TestPropOverrides(t *testing.T) {
 		offQuiet := func(tag string) bool { return ev.ExcludedQuiet(tag) || ev.ExcludedQuiet(prefix+tag) }
 		f.Off = off
 		gc := wgen.GenExec(t, f)
-		if ops, cmp := wgen.OverrideFoldHazards(gc.Mod); (len(ops) > 0 && offQuiet("override.fold.unsupported-op")) || (len(cmp) > 0 && offQuiet("override.fold.compare")) {
-			// open findings C14-3 / C14-2: a function-body expression over overrides and literals
-			// that override resolution folds with its + - * / float evaluator
+		if ops, cmp := foldHazards(gc.Src); (ops && offQuiet("override.fold.unsupported-op")) || (cmp && offQuiet("override.fold.compare")) {
+			// open findings C14-3 / C14-2: a function-body expression over literals, constants and
+			// overrides that override resolution folds with its + - * / float evaluator
 			ev.Class("discard:known:override-fold-op")
 			return
 		}
@@ -343,6 +344,55 @@ func overrideExprError(gc *wgen.ExecCase, bound map[*wgen.Var]wref.Value) string
 		}
 	}
 	return ""
+}
+
+// foldHazards scans the lowered module for the expressions ir.ProcessOverrides
+// folds: a Binary / Unary whose operands are literals, constants, overrides or
+// themselves folded.  ops reports such a Binary with an operator other than
+// + - * / (the resolution pass evaluates those to 0), cmp one with a comparison.
+// The module is only inspected to recognise the constructs of open findings.
+func foldHazards(src string) (ops, cmp bool) {
+	m, _, err := xrun.Lower(src)
+	if err != nil || m == nil || len(m.Overrides) == 0 {
+		return false, false
+	}
+	scan := func(f *ir.Function) {
+		lit := make([]bool, len(f.Expressions))
+		for i, e := range f.Expressions {
+			switch k := e.Kind.(type) {
+			case ir.Literal, ir.ExprOverride:
+				lit[i] = true
+			case ir.ExprConstant:
+				if int(k.Constant) < len(m.Constants) {
+					if t := m.Constants[k.Constant].Type; int(t) < len(m.Types) {
+						_, lit[i] = m.Types[t].Inner.(ir.ScalarType)
+					}
+				}
+			case ir.ExprUnary:
+				if int(k.Expr) < i && lit[k.Expr] && k.Op != ir.UnaryBitwiseNot {
+					lit[i] = true
+				}
+			case ir.ExprBinary:
+				if int(k.Left) < i && int(k.Right) < i && lit[k.Left] && lit[k.Right] {
+					lit[i] = true
+					switch k.Op {
+					case ir.BinaryAdd, ir.BinarySubtract, ir.BinaryMultiply, ir.BinaryDivide:
+					case ir.BinaryEqual, ir.BinaryNotEqual, ir.BinaryLess, ir.BinaryLessEqual, ir.BinaryGreater, ir.BinaryGreaterEqual:
+						cmp = true
+					default:
+						ops = true
+					}
+				}
+			}
+		}
+	}
+	for i := range m.Functions {
+		scan(&m.Functions[i])
+	}
+	for i := range m.EntryPoints {
+		scan(&m.EntryPoints[i].Function)
+	}
+	return ops, cmp
 }
 
 // plainLiteral reports whether an initialiser is printed as a bare literal
